@@ -288,7 +288,8 @@ class Term(ItemSequenceT[T]):
 
     def reciprocal(self) -> Term[T]:
         """1 / `self`"""
-        return self.__class__(_reciprocal(self), reduce_items=False)
+        return self.__class__(_filter_items(_reciprocal(self)),
+                              reduce_items=False)
 
     def __iter__(self) -> Iterator[ItemT[T]]:
         """Return iterator over items in `self`."""
@@ -419,9 +420,16 @@ def _num_pow(num: Rational, exp: int) -> Rational:
 
 def _filter_items(items: ItemIterableT[T]) \
         -> Generator[ItemT[T], None, None]:
-    return ((elem, exp) for (elem, exp) in items
+    for (elem, exp) in items:
+        if isinstance(elem, Rational):
+            # numeric elements are always held with exponent 1
+            if exp != 1:
+                elem = _num_pow(elem, exp)
             # eliminate items equivalent to 1:
-            if exp != 0 and elem != 1)
+            if elem != 1:
+                yield elem, 1
+        elif exp != 0:
+            yield elem, exp
 
 
 def _reciprocal(items: ItemIterableT[T]) \
